@@ -43,6 +43,16 @@ def _enum(items, state, flags):
             nxt = _enum(body, state, flags)
         elif op is P.BRANCH:
             nxt = [w for b in av[1] for w in _enum(b, state, flags)]
+        elif op in (P.MAX_REPEAT, P.MIN_REPEAT) and av[1] != P.MAXREPEAT and av[1] <= 4:
+            # a bounded repeat (`x?`, `x{1,2}`): greedy tries one more copy before stopping, lazy the other way round
+            lo, hi, body = av
+            once = _enum(list(body), state, flags)
+
+            def reps(k):
+                more = [a + b for a in once for b in reps(k + 1)] if k < hi else []
+                stop = [""] if k >= lo else []
+                return more + stop if op is P.MAX_REPEAT else stop + more
+            nxt = reps(0)
         else:
             raise Unsupported(f"construct {op} in a finite rule")
         words = [a + b for a in words for b in nxt]
